@@ -132,6 +132,10 @@ M: List[Tuple[str, str, str, str, str]] = [
      "'request_path': text_(self.request.path, errors='replace'),", "'request_path': text_(self.request.path),"),
     ('c07-revert-upstream-write-failure-flush', 'C07', 'proxy/http/handler.py',
      "                if self.selector is None and self.work.has_buffer():\n                    self.must_flush_before_shutdown = True\n                    return False\n", ""),
+    ('c12-https-default-port-80', 'C12', 'proxy/http/server/reverse.py',
+     "                else self.choice.port or DEFAULT_HTTPS_PORT", "                else self.choice.port or DEFAULT_HTTP_PORT"),
+    ('c12-https-upstream-not-wrapped', 'C12', 'proxy/http/server/reverse.py',
+     "                    if self.choice.scheme == HTTPS_PROTO:", "                    if self.choice.scheme == HTTPS_PROTO and self.choice.port:"),
     # ---- C14 ---------------------------------------------------------------
     ('c14-default-port-8080', 'C14', 'proxy/http/parser/parser.py',
      "                    if self._url.port is not None else DEFAULT_HTTP_PORT",
